@@ -24,10 +24,11 @@ import (
 // does not return within 2 s the loop is wedged - and inspects every waiter's channel without consuming.
 
 type qStep struct {
-	A string `json:"a"`
-	W int    `json:"w"`
-	T string `json:"t"`
-	R uint64 `json:"r"`
+	A string  `json:"a"`
+	W int     `json:"w"`
+	T string  `json:"t"`
+	R uint64  `json:"r"`
+	B []qStep `json:"b"` // "burst": notifications delivered back to back, as an apply path serving several tables does
 }
 
 type qWaiter struct {
@@ -55,7 +56,25 @@ func queueRun(tr *tracer.T, steps []qStep, nw int) bool {
 			return false
 		}
 	}
+	var obsOnce func() (bool, []int)
 	obs := func() {
+		// the queue may answer a little after the call that caused the answer returned: look until nothing moves any more
+		ok, avail := obsOnce()
+		for i := 0; ok && i < 25; i++ {
+			time.Sleep(time.Duration(100*(i+1)) * time.Microsecond)
+			ok2, avail2 := obsOnce()
+			same := ok2 == ok && len(avail2) == len(avail)
+			for j := range avail {
+				same = same && avail[j] == avail2[j]
+			}
+			ok, avail = ok2, avail2
+			if same {
+				break
+			}
+		}
+		tr.Emit(map[string]any{"ev": "obs", "wedged": !ok, "avail": avail})
+	}
+	obsOnce = func() (bool, []int) {
 		ok := withTimeout(func() { q.Len("t"); q.Len("u") })
 		if !ok {
 			wedged = true
@@ -88,7 +107,7 @@ func queueRun(tr *tracer.T, steps []qStep, nw int) bool {
 				}
 			}
 		}
-		tr.Emit(map[string]any{"ev": "obs", "wedged": !ok, "avail": avail})
+		return ok, avail
 	}
 	for _, s := range steps {
 		if wedged {
@@ -116,6 +135,19 @@ func queueRun(tr *tracer.T, steps []qStep, nw int) bool {
 				continue
 			}
 			tr.Emit(map[string]any{"ev": "notify", "t": s.T, "r": s.R})
+		case "burst":
+			if !withTimeout(func() {
+				for _, b := range s.B {
+					q.Notify(b.T, b.R)
+				}
+			}) {
+				wedged = true
+				tr.Emit(map[string]any{"ev": "obs", "wedged": true, "avail": []int{}})
+				continue
+			}
+			for _, b := range s.B {
+				tr.Emit(map[string]any{"ev": "notify", "t": b.T, "r": b.R})
+			}
 		case "sweep":
 			select {
 			case sweepC <- time.Now():
@@ -170,8 +202,15 @@ func queueRandomSteps(rng *rand.Rand, nw, n int) []qStep {
 			steps = append(steps, qStep{A: "cancel", W: 1 + rng.Intn(added)})
 		case x < 70:
 			steps = append(steps, qStep{A: "sweep"})
-		case x < 85:
+		case x < 80:
 			steps = append(steps, qStep{A: "notify", T: []string{"t", "t", "u"}[rng.Intn(3)], R: uint64(rng.Intn(12))})
+		case x < 88:
+			// several tables are notified back to back (no other call in between)
+			b := qStep{A: "burst"}
+			for i, n := 0, 2+rng.Intn(3); i < n; i++ {
+				b.B = append(b.B, qStep{A: "notify", T: []string{"t", "u"}[(i+rng.Intn(2))%2], R: uint64(rng.Intn(12))})
+			}
+			steps = append(steps, b)
 		case added > 0:
 			steps = append(steps, qStep{A: "read", W: 1 + rng.Intn(added)})
 		}
